@@ -4,22 +4,25 @@ import VelaVerif.Gen.SrcFpMath
 /-!
 # The translated `fp_math.py` (`Gen/SrcFpMath.lean`) computes what the hand model `Model/FpMath.lean` computes
 
-For every translated function a *specification lemma*: applied to operands of the tags that occur
-(Python `int`, `np.int32`, `np.int64`) it returns — as a closed formula — the tagged result, written with
-the hand model's value functions.  Proved by symbolic execution (`py_exec`) and `omega`; the lemmas of
-callees are rewrite rules for the callers.  `Props/C19Src.lean` states the consequences for Python-int
-arguments.
+For the primitives a pair of *specification lemmas* with the same right-hand side: one for the
+translated function applied to operands of the tags that occur (Python `int`, `np.int32`, `np.int64`),
+one for the hand model.  Both are total (`if` on the range conditions), so they are unconditional
+rewrite rules up to the tag invariants; results carry their int32 range as `wrap .i32 _` (an identity
+there), which is what lets `omega` see that later 64-bit sums do not wrap.  Callers are then proved by
+running both sides (`py_exec`) and splitting the common `if`s (`py_finish`).
 -/
 namespace VelaVerif.SrcFpMath
 open VelaVerif VelaVerif.PyRt VelaVerif.FpMath
 open VelaVerif.Gen.SrcFpMath
 
-/-- the tags that reach `fp_math` functions from Python-int entry arguments -/
-def T3 (t : Ty) : Prop := t = .py ∨ t = .i32 ∨ t = .i64
-
-/-- error of `assert np.intN(a) == a` for an operand that does not fit: NumPy raises `OverflowError`
-    for a Python int, the comparison fails (`AssertionError`) for a wider NumPy scalar -/
-def castErr (t : Ty) : PyRt.Err := if t = .py then .overflow else .assert_
+/-- how an error of the translated source relates to an error of `Model/FpMath.lean`: the model maps an
+    exception raised on an `assert` line (`OverflowError` of `np.int32(python int)`) to `assert_` -/
+def errRel : PyRt.Err → FpMath.Err → Prop
+  | .assert_, .assert_ => True
+  | .overflow, .assert_ => True
+  | .overflow, .overflow => True
+  | .value, .value => True
+  | _, _ => False
 
 theorem prod32_i64 (a b : Int) (ha : Ty.fits .i32 a) (hb : Ty.fits .i32 b) :
     -4611686018427387904 ≤ a * b ∧ a * b ≤ 4611686018427387904 := by
@@ -33,18 +36,184 @@ theorem prod16_i32 (a b : Int) (ha : Ty.fits .i16 a) (hb : Ty.fits .i16 b) :
   have := mul_bounds 32768 32768 a b ha.1 (by omega) hb.1 (by omega)
   omega
 
-/-- value and tag of `saturating_rounding_mul32` on operands that fit int32 -/
-def srm32Res (a b : Int) : Num :=
-  if a = b ∧ a = -2147483648 then ⟨.i32, 2147483647⟩ else ⟨.i64, roundingMulBody (a * b) 31⟩
+/-- the rounding multiplication of two int32 values that are not both `INT_MIN` fits int32 again -/
+theorem rmb31_fits (a b : Int) (ha : Ty.fits .i32 a) (hb : Ty.fits .i32 b) (hne : ¬ (a = b ∧ a = -2147483648)) :
+    Ty.fits .i32 (roundingMulBody (a * b) 31) := by
+  simp only [Ty.fits] at ha hb ⊢
+  have hp := prod32_bounds a b ha.1 ha.2 hb.1 hb.2 (by omega)
+  generalize a * b = ab at hp
+  simp only [roundingMulBody, Nat.reduceSub, Int.reducePow]
+  split
+  · omega
+  · split <;> omega
 
-theorem srm32_ok (ta tb : Ty) (hta : T3 ta) (htb : T3 tb) (a b : Int)
-    (ha : Ty.fits .i32 a) (hb : Ty.fits .i32 b) :
-    saturating_rounding_mul32 ⟨ta, a⟩ ⟨tb, b⟩ = .ok (srm32Res a b) := by
-  have hp := prod32_i64 a b ha hb
-  simp only [Ty.fits] at ha hb
-  unfold srm32Res
-  rcases hta with rfl | rfl | rfl <;> rcases htb with rfl | rfl | rfl <;>
-  · py_exec [saturating_rounding_mul32, roundingMulBody]
-    py_finish
+/-! ## `saturating_rounding_mul32` -/
+
+/-- common right-hand side of `srm32_spec` (translated source, error kinds `ea`, `eb`) and `msrm32_spec` (model) -/
+def srm32Out {ε : Type} (ea eb : ε) (tag1 tag2 : Ty) (a b : Int) : Except ε Num :=
+  if ¬ Ty.fits .i32 a then .error ea
+  else if ¬ Ty.fits .i32 b then .error eb
+  else if a = b ∧ a = -2147483648 then .ok ⟨tag1, 2147483647⟩
+  else .ok ⟨tag2, wrap .i32 (roundingMulBody (a * b) 31)⟩
+
+theorem srm32_spec (ta tb : Ty) (a b : Int) (hta : T3 ta) (htb : T3 tb) (ha : ta.fits a) (hb : tb.fits b) :
+    saturating_rounding_mul32 ⟨ta, a⟩ ⟨tb, b⟩ =
+      if ¬ Ty.fits .i32 a then .error (castErr ta)
+      else if ¬ Ty.fits .i32 b then .error (castErr tb)
+      else if a = b ∧ a = -2147483648 then .ok ⟨.i32, 2147483647⟩
+      else .ok ⟨.i64, wrap .i32 (roundingMulBody (a * b) 31)⟩ := by
+  by_cases h1 : Ty.fits .i32 a
+  · by_cases h2 : Ty.fits .i32 b
+    · have hp := prod32_i64 a b h1 h2
+      rw [if_neg (not_not.2 h1), if_neg (not_not.2 h2)]
+      by_cases hne : a = b ∧ a = -2147483648
+      · rw [if_pos hne]
+        rcases hta with rfl | rfl | rfl <;> rcases htb with rfl | rfl | rfl <;>
+        · simp only [Ty.fits] at h1 h2
+          py_exec [saturating_rounding_mul32]
+          py_finish
+      · rw [if_neg hne, wrap_id _ _ (rmb31_fits a b h1 h2 hne)]
+        rcases hta with rfl | rfl | rfl <;> rcases htb with rfl | rfl | rfl <;>
+        · simp only [Ty.fits] at h1 h2
+          py_exec [saturating_rounding_mul32, roundingMulBody]
+          py_finish
+    · rw [if_neg (not_not.2 h1), if_pos h2]
+      rcases hta with rfl | rfl | rfl <;> rcases htb with rfl | rfl | rfl <;>
+      · simp only [Ty.fits] at h1 h2 hb
+        first
+          | omega
+          | (py_exec [saturating_rounding_mul32]
+             try py_finish)
+  · rw [if_pos h1]
+    rcases hta with rfl | rfl | rfl <;>
+    · simp only [Ty.fits] at h1 ha
+      first
+        | omega
+        | (py_exec [saturating_rounding_mul32]
+           try py_finish)
+
+/-! ## `rounding_divide_by_pot` -/
+
+/-- value of `rounding_divide_by_pot(x, e)` for `e ≥ 0` -/
+def rdbpVal (x e : Int) : Int :=
+  x / 2 ^ e.toNat + (if x % 2 ^ e.toNat > (2 ^ e.toNat - 1) / 2 + (if x < 0 then 1 else 0) then 1 else 0)
+
+theorem ediv_two_pow_bounds (x : Int) (n : Nat) (hx : Ty.fits .i32 x) :
+    -2147483648 ≤ x / 2 ^ n ∧ x / 2 ^ n ≤ 2147483647 ∧ (2 ≤ (2:Int) ^ n → x / 2 ^ n ≤ 1073741823) := by
+  simp only [Ty.fits] at hx
+  have hp : (0:Int) < 2 ^ n := Int.pow_pos (by decide)
+  refine ⟨?_, ?_, ?_⟩
+  · have : (-2147483648 : Int) ≤ x / 2 ^ n := by
+      rw [Int.le_ediv_iff_mul_le hp]
+      by_cases h : 0 ≤ x
+      · nlinarith
+      · nlinarith
+    exact this
+  · rw [← Int.lt_add_one_iff, Int.ediv_lt_iff_lt_mul hp]; nlinarith
+  · intro h2
+    rw [← Int.lt_add_one_iff, Int.ediv_lt_iff_lt_mul hp]; nlinarith
+
+theorem rdbpVal_fits (x e : Int) (hx : Ty.fits .i32 x) : Ty.fits .i32 (rdbpVal x e) := by
+  have hb := ediv_two_pow_bounds x e.toNat hx
+  have hp : (0:Int) < 2 ^ e.toNat := Int.pow_pos (by decide)
+  have hm := Int.emod_nonneg x (Int.ne_of_gt hp)
+  have hm2 := Int.emod_lt_of_pos x hp
+  simp only [Ty.fits] at hx ⊢
+  unfold rdbpVal
+  generalize (2:Int) ^ e.toNat = p at *
+  split
+  · split <;> omega
+  · omega
+
+theorem two_pow_le_of_le (e : Int) (k : Nat) (h : e ≤ k) : (2:Int) ^ e.toNat ≤ 2 ^ k := by
+  have : e.toNat ≤ k := by omega
+  have h2 : (2:Nat) ^ e.toNat ≤ 2 ^ k := Nat.pow_le_pow_right (by decide) this
+  exact_mod_cast h2
+
+theorem rdbp_spec (tx : Ty) (x e : Int) (htx : T3 tx) (hx : tx.fits x) (he : tx = .py ∨ e ≤ 31) :
+    rounding_divide_by_pot ⟨tx, x⟩ ⟨.py, e⟩ =
+      if ¬ Ty.fits .i32 x then .error (castErr tx)
+      else if ¬ Ty.fits .i32 e then .error .overflow
+      else if e < 0 then .error .value
+      else .ok ⟨tx, wrap .i32 (rdbpVal x e)⟩ := by
+  have hp : (0:Int) < 2 ^ e.toNat := Int.pow_pos (by decide)
+  have hm := Int.emod_nonneg x (Int.ne_of_gt hp)
+  have hm2 := Int.emod_lt_of_pos x hp
+  by_cases h1 : Ty.fits .i32 x
+  · have hv := rdbpVal_fits x e h1
+    have hb := ediv_two_pow_bounds x e.toNat h1
+    rw [if_neg (not_not.2 h1), wrap_id _ _ hv]
+    by_cases h2 : Ty.fits .i32 e
+    · rw [if_neg (not_not.2 h2)]
+      by_cases h3 : e < 0
+      · rw [if_pos h3]
+        rcases htx with rfl | rfl | rfl <;>
+        · simp only [Ty.fits] at h1 h2
+          py_exec [rounding_divide_by_pot]
+          py_finish
+      · rw [if_neg h3]
+        unfold rdbpVal
+        rcases htx with rfl | rfl | rfl
+        · simp only [Ty.fits] at h1 h2
+          py_exec [rounding_divide_by_pot]
+          py_finish
+        · have he' : e ≤ 31 := by rcases he with h | h <;> first | cases h | exact h
+          have hle := two_pow_le_of_le e 31 he'
+          simp only [Ty.fits] at h1 h2
+          py_exec [rounding_divide_by_pot]
+          py_finish
+        · have he' : e ≤ 31 := by rcases he with h | h <;> first | cases h | exact h
+          have hle := two_pow_le_of_le e 31 he'
+          simp only [Ty.fits] at h1 h2
+          py_exec [rounding_divide_by_pot]
+          py_finish
+    · rw [if_pos h2]
+      rcases htx with rfl | rfl | rfl <;>
+      · simp only [Ty.fits] at h1 h2
+        py_exec [rounding_divide_by_pot]
+        try py_finish
+  · rw [if_pos h1]
+    rcases htx with rfl | rfl | rfl <;>
+    · simp only [Ty.fits] at h1 hx
+      first
+        | omega
+        | (py_exec [rounding_divide_by_pot]
+           try py_finish)
+
+/-! ## the hand model's primitives in the same closed form -/
+
+theorem fits32_iff (x : Int) : inI32 x = true ↔ Ty.fits .i32 x := by
+  rw [inI32_iff]; rfl
+
+theorem msrm32_spec (a b : Int) :
+    saturatingRoundingMul32 a b =
+      if ¬ Ty.fits .i32 a then .error .assert_
+      else if ¬ Ty.fits .i32 b then .error .assert_
+      else if a = b ∧ a = -2147483648 then .ok 2147483647
+      else .ok (wrap .i32 (roundingMulBody (a * b) 31)) := by
+  by_cases h1 : Ty.fits .i32 a
+  · by_cases h2 : Ty.fits .i32 b
+    · by_cases hne : a = b ∧ a = -2147483648
+      · py_exec [saturatingRoundingMul32, chk32, fits32_iff, i32min, i32max, h1, h2, hne]
+      · rw [if_neg (not_not.2 h1), if_neg (not_not.2 h2), if_neg hne, wrap_id _ _ (rmb31_fits a b h1 h2 hne)]
+        py_exec [saturatingRoundingMul32, chk32, fits32_iff, i32min, i32max, h1, h2, hne]
+    · py_exec [saturatingRoundingMul32, chk32, fits32_iff, i32min, i32max, h1, h2]
+  · py_exec [saturatingRoundingMul32, chk32, fits32_iff, i32min, i32max, h1]
+
+theorem mrdbp_spec (x e : Int) :
+    roundingDivideByPot x e =
+      if ¬ Ty.fits .i32 x then .error .assert_
+      else if ¬ Ty.fits .i32 e then .error .assert_
+      else if e < 0 then .error .value
+      else .ok (wrap .i32 (rdbpVal x e)) := by
+  by_cases h1 : Ty.fits .i32 x
+  · by_cases h2 : Ty.fits .i32 e
+    · by_cases h3 : e < 0
+      · py_exec [roundingDivideByPot, chk32, pow2, fits32_iff, h1, h2, h3]
+      · rw [if_neg (not_not.2 h1), if_neg (not_not.2 h2), if_neg h3, wrap_id _ _ (rdbpVal_fits x e h1)]
+        py_exec [roundingDivideByPot, chk32, pow2, fits32_iff, rdbpVal, h1, h2, h3]
+        py_finish
+    · py_exec [roundingDivideByPot, chk32, fits32_iff, h1, h2]
+  · py_exec [roundingDivideByPot, chk32, fits32_iff, h1]
 
 end VelaVerif.SrcFpMath
